@@ -335,7 +335,7 @@ def cap_opts(ref, o):
     """the 268-heavy-atom chain is there for its atom indices, not for deep runs: few levels, moderate radius"""
     if ref == HUGE_REF:
         o["level"] = 2 if o["level"] in (0, 1, 2) else 3
-        o["radius_multiplier"] = min(max(o["radius_multiplier"], 1.0), 1.718)
+        o["radius_multiplier"] = 1.718
         o["remove_duplicate_substructs"] = True
     return o
 
